@@ -41,7 +41,7 @@ def run_verus(pid, unit, tier, seed, keep=False):
         pids = set([pid] + unit.get("include_props", []))
         scope_fns = sorted(fn for fn, props in meta["fn_props"].items() if pids & set(props))
         scope_obl = [o for o in meta["obligations"] if pids & set(o["props"])]
-        files = sorted(rel for rel in meta["files"] if any(fn.startswith(os.path.basename(rel) + "::") for fn in scope_fns))
+        files = sorted(rel for rel in meta["files"] if any(fn.startswith(annotate.short_name(rel) + "::") for fn in scope_fns))
         extra = []
         if tier == "quick":
             specs = unit.get("specs")
@@ -67,7 +67,7 @@ def run_verus(pid, unit, tier, seed, keep=False):
             # only functions that are actually verified (have a contract or a twin)
             keep = set()
             for fn in meta["fn_props"]:
-                if fn.startswith(os.path.basename(relf) + "::"):
+                if fn.startswith(annotate.short_name(relf) + "::"):
                     last = fn.split("::")[-1]
                     keep.add("*::" + last)
                     keep.add("*twin_" + "_".join(fn.split("::")[1:]))
